@@ -75,7 +75,7 @@ func zzCipherTags(c any) (keyTag, ivTag byte, isRead, isBlock bool, ok bool) {
 //verif:stub utls.aeadChaCha20Poly1305 zzStubAeadChaCha
 //verif:expect supported unsupported
 //verif:assume the PRF and the cipher/MAC/AEAD constructors are opaque (they record their arguments)
-//verif:doc MakeConnWithCompleteHandshake for EVERY 16-bit cipher suite id (symbolic), version 1.0..1.2 and both roles: nil exactly when utls does not implement the suite; otherwise the outgoing half uses this role's write key/IV/MAC key and the incoming half the peer's, a client's out matches a server's in and vice versa, and each block cipher is constructed for the direction it is used in (decrypter for in, encrypter for out).
+//verif:doc MakeConnWithCompleteHandshake for EVERY 16-bit cipher suite id (symbolic), version 1.0..1.2 and both roles: nil exactly when utls does not implement the suite; otherwise the outgoing half uses this role's write key/IV/MAC key and the incoming half the peer's, a client's out matches a server's in and vice versa, and each block cipher is constructed for the direction it is used in (decrypter for in, encrypter for out); all four half-connections carry the given record-layer version.
 func zzC27ForgedConnectionKeys() {
 	id := verifU16("suite")
 	version := uint16(VersionTLS10 + verifChoice("version", 3))
@@ -112,4 +112,10 @@ func zzC27ForgedConnectionKeys() {
 		verifAssert(m3 != nil && m3.key[0] == 2 && m4 != nil && m4.key[0] == 2, "server-out-and-client-in-mac-key")
 	}
 	verifAssert(cli.vers == version && cli.cipherSuite == id && cli.isHandshakeComplete.Load(), "state-reports-version-and-suite")
+	verifAssert(srv.vers == version && srv.cipherSuite == id && srv.isHandshakeComplete.Load(), "server-state-reports-version-and-suite")
+	// the record layer of every half frames records for the negotiated version
+	// (explicit CBC IVs from TLS 1.1, nonce handling): a half left at another
+	// version cannot read what its peer writes
+	verifAssert(cli.in.version == version && cli.out.version == version, "client-halves-use-the-version")
+	verifAssert(srv.in.version == version && srv.out.version == version, "server-halves-use-the-version")
 }
